@@ -364,3 +364,49 @@ Qed.
 Lemma identity_refuted : forall hpk hs,
   verify_sig_old (pairing_for_old hpk hs) G2Inf (fst (sig_deserialize_old g1_unmarshal_old (repeat 0%N 64))) = true.
 Proof. intros. vm_compute. reflexivity. Qed.
+
+(* ================= 5. hash to G1, negation ================= *)
+Lemma P_pos : 0 < P. Proof. vm_compute. reflexivity. Qed.
+
+Lemma fsqrt_spec t y : fsqrt t = Some y -> fmul y y = t mod P.
+Proof.
+  unfold fsqrt. set (z := fpow t ((P + 1) / 4)). cbv zeta.
+  destruct (fmul z z =? t mod P) eqn:Q; [|discriminate].
+  intro H. injection H as <-. apply Z.eqb_eq. exact Q.
+Qed.
+
+Opaque fsqrt fpow.
+(* the try-and-increment hash returns a point of the curve (when it returns within its fuel) *)
+Lemma hash_point_on_curve f : forall x x' y, hash_point f x = Some (x', y) -> on_curve x' y = true.
+Proof.
+  induction f as [|f IH]; intros x x' y H; cbn [hash_point] in H; [discriminate|].
+  destruct (fsqrt (fadd (fmul (fmul x x) x) 3)) as [y0|] eqn:E.
+  - injection H as <- <-. apply fsqrt_spec in E. unfold on_curve. apply Z.eqb_eq. rewrite E.
+    unfold fadd. apply Z.mod_mod. pose proof P_pos. lia.
+  - eapply IH. exact H.
+Qed.
+
+Lemma on_curve_mod_x x y : on_curve (x mod P) y = on_curve x y.
+Proof.
+  pose proof P_pos as HP.
+  assert (E : fmul (fmul (x mod P) (x mod P)) (x mod P) = fmul (fmul x x) x).
+  { unfold fmul. rewrite <- (Z.mul_mod x x P) by lia. rewrite <- (Z.mul_mod (x * x) x P) by lia.
+    rewrite (Z.mul_mod_idemp_l (x * x) x P) by lia. reflexivity. }
+  unfold on_curve. rewrite E. reflexivity.
+Qed.
+
+Lemma hash_to_g1_valid d : hash_to_g1 d <> G1Nil -> sig_is_valid (hash_to_g1 d) = true.
+Proof.
+  unfold hash_to_g1. destruct (hash_point 64 (bytesZ d mod P)) as [[x y]|] eqn:E; [|congruence].
+  intros _. cbn [sig_is_valid]. rewrite on_curve_mod_x. eapply hash_point_on_curve. exact E.
+Qed.
+
+Transparent fsqrt fpow.
+
+(* -(x, y) = (x, -y) is on the curve when (x, y) is *)
+Lemma neg_on_curve x y : on_curve x y = true -> on_curve x (fsub 0 y) = true.
+Proof.
+  unfold on_curve. intro H. apply Z.eqb_eq in H. apply Z.eqb_eq. rewrite <- H.
+  unfold fmul, fsub. pose proof P_pos as HP.
+  rewrite Z.mul_mod_idemp_l, Z.mul_mod_idemp_r by lia. f_equal. ring.
+Qed.
